@@ -4,10 +4,12 @@ patch="$(realpath "$1")"; prop="$2"; tier="${3:-quick}"; seed="${4:-1}"
 cd /verif
 git -C /repo diff --quiet || { echo "/repo has uncommitted changes"; exit 2; }
 git -C /repo apply "$patch" || { echo "patch does not apply"; exit 2; }
+cp -f evidence/$prop.json /tmp/ev_save.$$ 2>/dev/null
 start=$(date +%s)
 VERIF_SEED=$seed ./check "$prop" --tier "$tier" > /tmp/mut_out.$$ 2>&1; rc=$?
 end=$(date +%s)
 git -C /repo checkout -- .
+[ -f /tmp/ev_save.$$ ] && mv -f /tmp/ev_save.$$ evidence/$prop.json
 echo "== $patch on $prop ($tier, seed $seed): rc=$rc in $((end-start))s"
 grep -E "^(VIOLATION|--- violation|KNOWN)" /tmp/mut_out.$$ | cut -c1-220 | head -8
 rm -f /tmp/mut_out.$$
